@@ -126,6 +126,115 @@ def extract_impl(ctx, ev, orc):
     return table, None
 
 
+def extract_impl_eval(ctx, ev, orc):
+    """Shape-independent extraction: ItsPayloadFsmContinuous::advance is evaluated (constant folding over the typed
+    syntax tree, local classifier helpers inlined by the evaluator) for every state variant × identifier × flag
+    assignment.  Returns table[state][(id, no_data, packet_done)] = (result, successor) or (None, error)."""
+    from ..thir import Agg, Sym, Bits, vkey
+    f = ctx.facts()
+    path = FSM + "ItsPayloadFsmContinuous::advance"
+    vadt = FSM + "ITS_Payload_Continuous::Variant"
+    if path not in f.fns or vadt not in f.adts:
+        return None, "advance / Variant not found"
+    states = [v["name"] for v in f.adts[vadt]["variants"]]
+
+    def hook(n, args):
+        s_ = (n.get("ga") or [{}])[0].get("s", "")
+        m = re.search(r"Machine<([^,>]+),\s*([^>]+)>", s_)
+        if m:
+            return Agg(vadt, m.group(1).split("::")[-1] + "By" + m.group(2).split("::")[-1], {"0": Sym("stm")})
+        return None
+
+    ev.call_hooks = [(lambda fn, res: fn.endswith("AsEnum::as_enum"), hook),
+                     (lambda fn, res: fn.endswith("Clone::clone") and False, lambda n, a: None)]
+    fb = orc["flag_bit"]
+
+    def word(idv, nd, pd):
+        bytes_ = []
+        for k in range(10):
+            if k == 9:
+                bytes_.append(Bits.const(idv, 8))
+                continue
+            bits = []
+            for j in range(8):
+                pos = 8 * k + j
+                if pos == fb["no_data"] and nd is not None:
+                    bits.append(nd)
+                elif pos == fb["packet_done"] and pd is not None:
+                    bits.append(pd)
+                else:
+                    bits.append(("W", pos))
+            bytes_.append(Bits(8, bits))
+        return ("array",) + tuple(bytes_)
+
+    def step(state, idv, nd, pd):
+        slf = Agg(FSM + "ItsPayloadFsmContinuous", "ItsPayloadFsmContinuous", {"state_machine": Agg(vadt, state, {"0": Sym("stm")})})
+        w = word(idv, nd, pd)
+        recs = ev.collect_ifs(path, [slf, w])
+        nxt = [o for o in recs if "assign" in o and o["assign"][0] == "=" and re.match(r"Variant::\w+\(", o["assign"][2]) and o["assign"][1].startswith("Variant::")
+               and all(g == "true" or g.startswith("not false") for g in o["guard"])]
+        r = ev.call_fn(path, [slf, w])
+        res = None
+        if isinstance(r, Agg) and r.var in ("Ok", "Err") and isinstance(r.fields.get("0"), Agg):
+            res = (r.var, r.fields["0"].var)
+        succ = None
+        if len(nxt) == 1:
+            m = re.match(r"Variant::(\w+)\(", nxt[0]["assign"][2])
+            succ = m.group(1) if m else None
+        return res, succ
+
+    table = {}
+    try:
+        for st in states:
+            rows = {}
+            for idv in range(256):
+                res, succ = step(st, idv, None, None)
+                if res is not None and succ is not None:
+                    for nd in (0, 1):
+                        for pd in (0, 1):
+                            rows[(idv, nd, pd)] = (res, succ)
+                    continue
+                for nd in (0, 1):
+                    for pd in (0, 1):
+                        res, succ = step(st, idv, nd, pd)
+                        if res is None or succ is None:
+                            return None, "advance(state=%s, id=%#x, no_data=%d, packet_done=%d) does not evaluate to (word, successor): %s, %s" % (st, idv, nd, pd, res, succ)
+                        rows[(idv, nd, pd)] = (res, succ)
+            table[st] = rows
+    except Unsupported as e:
+        return None, "advance cannot be evaluated: %s" % e
+    finally:
+        ev.call_hooks = []
+    return table, None
+
+
+def rows_from_eval(etab, where_):
+    """groups the evaluated transition function into the row format used by the product exploration"""
+    table = {}
+    for st, rows in etab.items():
+        groups = {}
+        for idv in range(256):
+            o = {(nd, pd): rows[(idv, nd, pd)] for nd in (0, 1) for pd in (0, 1)}
+            if len(set(o.values())) == 1:
+                key = ("none", o[(0, 0)])
+            elif o[(0, 0)] == o[(0, 1)] and o[(1, 0)] == o[(1, 1)]:
+                key = ("no_data", o[(0, 0)], o[(1, 0)])
+            elif o[(0, 0)] == o[(1, 0)] and o[(0, 1)] == o[(1, 1)]:
+                key = ("packet_done", o[(0, 0)], o[(0, 1)])
+            else:
+                raise ValueError("state %s, id %#x: the outcome depends on both flag bits" % (st, idv))
+            groups.setdefault(key, set()).add(idv)
+        out = []
+        for key, ids in sorted(groups.items(), key=lambda kv: min(kv[1])):
+            if key[0] == "none":
+                out.append((ids, None, None, key[1][0], key[1][1], where_))
+            else:
+                out.append((ids, key[0], 0, key[1][0], key[1][1], where_))
+                out.append((ids, key[0], 1, key[2][0], key[2][1], where_))
+        table[st] = out
+    return table
+
+
 def _tail(tb, eid):
     i, n = tb.e(eid)
     while n["k"] == "Block":
@@ -265,10 +374,13 @@ def run(ctx, rep):
         data_ids.update(range(lo, hi + 1))
 
     # ---- extraction + well-formedness
+    # the transition function is obtained by evaluating advance() for every state × identifier × flag assignment
+    # (independent of how the function is written: inline match arms, classifier helpers, guard order)
     try:
-        table, err = extract_impl(ctx, ev, orc)
+        etab, err = extract_impl_eval(ctx, ev, orc)
+        table = rows_from_eval(etab, where(f.fns[FSM + "ItsPayloadFsmContinuous::advance"]["span"])) if etab is not None else None
     except (ValueError, KeyError, Unsupported) as e:
-        table, err = None, "UNRECOGNISED construct in advance: %s" % e
+        table, err = None, "advance cannot be evaluated to a transition table: %s" % e
     if table is None:
         rep.bad("R9.0", "R9.0|extract", err, FSM + "ItsPayloadFsmContinuous::advance")
         return
@@ -312,28 +424,22 @@ def run(ctx, rep):
     okw = {FSM + "ItsPayloadFsmContinuous::advance", FSM + "ItsPayloadFsmContinuous::reset_fsm"}
     rep.check(writers <= okw and writers, "R9.0", "R9.0|writers", "state_machine is written only by advance/reset_fsm: %s" % sorted(x.split("::")[-1] for x in writers), FSM,
               "unexpected writer(s) of state_machine: %s" % sorted(writers - okw))
-    for nm in ("new", "reset_fsm"):
-        p = FSM + "ItsPayloadFsmContinuous::" + nm
-        init_ok = False
-        # the state constructor may sit in a local helper of the FSM type (followed two levels deep)
-        todo, seen_ = [(p, 0)], set()
-        while todo:
-            q, d = todo.pop()
-            if q in seen_:
-                continue
-            seen_.add(q)
-            tb = ev.tb(q)
-            if not tb:
-                continue
-            for i, n in tb.walk():
-                if n["k"] != "Call":
-                    continue
-                fn_ = n.get("res") or n.get("fn") or ""
-                if (n.get("fn") or "").endswith("AsEnum::as_enum"):
-                    init_ok = "IHW_," in n["ga"][0]["s"] and "NoneEvent" in n["ga"][0]["s"]
-                elif fn_.startswith(FSM + "ItsPayloadFsmContinuous::") and d < 2:
-                    todo.append((fn_, d + 1))
-        rep.check(init_ok, "R9.0", "R9.0|initial|%s" % nm, "%s() yields the initial IHW state" % nm, p)
+    from ..thir import Agg as _Agg, Sym as _Sym, vkey as _vkey
+    initial = orc.get("initial_variant", "InitialIHW_")
+    try:
+        nv = ev.call_fn(FSM + "ItsPayloadFsmContinuous::new", [])
+        ok_new = isinstance(nv, _Agg) and isinstance(nv.fields.get("state_machine"), _Agg) and nv.fields["state_machine"].var == initial
+    except Unsupported:
+        nv, ok_new = None, False
+    rep.check(ok_new, "R9.0", "R9.0|initial|new", "new() yields the initial IHW state", FSM + "ItsPayloadFsmContinuous::new",
+              "new() evaluates to %s" % (_vkey(nv)[:200] if nv is not None else "unevaluable"))
+    try:
+        recs = ev.collect_ifs(FSM + "ItsPayloadFsmContinuous::reset_fsm", [_Sym("self")])
+        asg = [o["assign"][2] for o in recs if "assign" in o and o["assign"][1] == "sym(self.state_machine)" and not o["guard"]]
+        ok_reset = len(asg) == 1 and asg[0].startswith("Variant::%s(" % initial)
+    except Unsupported:
+        asg, ok_reset = [], False
+    rep.check(ok_reset, "R9.0", "R9.0|initial|reset_fsm", "reset_fsm() yields the initial IHW state", FSM + "ItsPayloadFsmContinuous::reset_fsm", "reset_fsm assigns %s" % [a[:120] for a in asg])
 
     # ---- diagram
     try:
@@ -489,6 +595,21 @@ def _consumer_table(ctx, ev, rep, orc):
     if not tb:
         rep.missing("R9.3", p)
         return
+    # every word is classified by the state machine: advance() runs exactly once on every path through check(),
+    # before any of the word handlers, and check() is the only caller
+    cg = ctx.cg()
+    adv = FSM + "ItsPayloadFsmContinuous::advance"
+    b = cg.body(p)
+    asites = [bb for bb, t, cal, c in b.calls() if cal == adv]
+    handlers = [bb for bb, t, cal, c in b.calls() if cal and cal.startswith(p.rsplit("::", 1)[0] + "::") and cal.split("::")[-1].startswith(("preprocess_", "process_", "check_", "report_error"))]
+    from ..mir import path_count_range
+    r = path_count_range(b, 0, b.return_blocks(), asites) if asites else None
+    okc = len(asites) == 1 and r == (1, 1) and all(b.dominates(asites[0], h) for h in handlers) and bool(handlers)
+    rep.check(okc, "R9.3", "R9.3|classified_by_fsm", "every word handed to check() is classified by advance() exactly once, before any handler runs", p,
+              "check(): advance() sites %d, executions per path %s, handlers not dominated by it: %d — a word can be handled without (or with a second) FSM step" % (
+                  len(asites), r, sum(1 for h in handlers if not (asites and b.dominates(asites[0], h)))))
+    callers = sorted(set(c for c, *_ in cg.call_sites(lambda q: q == adv) if c in ctx.reachable()))
+    rep.check(callers == [p], "R9.3", "R9.3|single_stepper", "advance() is called only by CdpRunningValidator::check", p, "callers of advance: %s" % callers)
     ct = orc["consumer_table"]
     found = {}
     for i, n in tb.walk():
